@@ -831,7 +831,7 @@ impl MqttClientImpl {
 
     pub(crate) fn advance_reconnect_period(&mut self) -> Duration {
         let reconnect_period = self.next_reconnect_period;
-        self.next_reconnect_period = self.clamp_reconnect_period(self.next_reconnect_period * 2);
+        self.next_reconnect_period = self.clamp_reconnect_period(self.next_reconnect_period.saturating_mul(2));
 
         match self.reconnect_options.reconnect_period_jitter {
             ExponentialBackoffJitterType::None => {
